@@ -48,6 +48,9 @@ def any_sym(xs):
 
 def pytype(x):
     """the Python type a proxy stands for"""
+    pt = getattr(type(x), '__sx_pytype__', None)
+    if pt is not None:
+        return pt
     if type(x) is SymInt:
         return int
     if isinstance(x, SymBool):
@@ -158,7 +161,7 @@ def _h_len(a, k):
 
 def _h_isinstance(a, k):
     x, t = a
-    if isinstance(x, _SYM):
+    if isinstance(x, _SYM) or hasattr(type(x), '__sx_pytype__'):
         pt = pytype(x)
         if pt is not type(x):
             if isinstance(t, tuple):
@@ -175,7 +178,7 @@ def _issub(pt, t):
 
 
 def _h_type(a, k):
-    if len(a) == 1 and isinstance(a[0], _SYM):
+    if len(a) == 1 and (isinstance(a[0], _SYM) or hasattr(type(a[0]), '__sx_pytype__')):
         return pytype(a[0])
     return NotImplemented
 
@@ -515,12 +518,36 @@ import zlib as _zlib
 _BUILTIN_HOOKS[_zlib.crc32] = _h_crc32
 
 
+def _h_hexlify(a, k):
+    if a and isinstance(a[0], SymBytes) and len(a) == 1 and not k:
+        used('binascii.hexlify')
+        from .symint import ite as _ite
+        out = []
+        for b in a[0].b:
+            for nib in ((b >> 4) & 15, b & 15):
+                out.append(_ite(nib < 10, nib + 48, nib + 87) if type(nib) is SymInt else (nib + 48 if nib < 10 else nib + 87))
+        return symseq.mkbytes(out)
+    return NotImplemented
+
+
+import binascii as _binascii
+_BUILTIN_HOOKS[_binascii.hexlify] = _h_hexlify
+
+
 # ---- operators ----------------------------------------------------------------
 def mod(l, r):
     if type(l) is str or type(l) is bytes:
         if is_sym(r) or (type(r) is tuple and any_sym(r)) or (type(r) is dict and any_sym(r.values())):
             from . import symstr
             return symstr.percent_format(l, r)
+        try:
+            return l % r
+        except TypeError as e:
+            if '__str__ returned non-string' in str(e):
+                # an object whose (instrumented) __str__ produced a symbolic string
+                from . import symstr
+                return symstr.percent_format(l, r)
+            raise
     return l % r
 
 
